@@ -36,14 +36,16 @@ type MapModel struct {
 	// struct embedded in it by value (resize bookkeeping shared by both map types).
 	StateOwner string
 	FlagCAS    *ssa.Function // helper of StateOwner that performs the flag CAS, when not done in Resize itself
-	AddSize  *ssa.Function
-	AddPlain *ssa.Function
-	SumSize  *ssa.Function
-	InProg   *ssa.Function // resizeInProgress
-	NewerTbl *ssa.Function // newerTableExists
-	IsEmpty  *ssa.Function // isEmptyBucket (Map only)
-	Problems []string
-	LockKind string // "spin" or "mutex"
+	// ResizeHelpers are functions the resize function delegates its copy loop to (they take tables, not buckets).
+	ResizeHelpers []*ssa.Function
+	AddSize       *ssa.Function
+	AddPlain      *ssa.Function
+	SumSize       *ssa.Function
+	InProg        *ssa.Function // resizeInProgress
+	NewerTbl      *ssa.Function // newerTableExists
+	IsEmpty       *ssa.Function // isEmptyBucket (Map only)
+	Problems      []string
+	LockKind      string // "spin" or "mutex"
 }
 
 // Model is the structural model of the whole library.
@@ -431,8 +433,8 @@ func (m *Model) buildMap(named *types.Named, iface string) *MapModel {
 		if recv == "" && res.Len() == 1 && namedOf(res.At(0).Type()) == mm.TableT && mm.TableT != "" {
 			mm.NewTable = f
 		}
-		if recv == mm.TableT && mm.TableT != "" {
-			// counter helpers on the table: classify by body
+		if (recv == mm.TableT || (recv != "" && recv == mm.counterType(p))) && mm.TableT != "" {
+			// counter helpers on the table (or on the named type of the table's counter field): classify by body
 			atomicAdd, plainStore, atomicLoad := false, false, false
 			Instrs(f, func(in ssa.Instruction) {
 				if c, ok := in.(ssa.CallInstruction); ok {
@@ -497,7 +499,7 @@ func (m *Model) buildMap(named *types.Named, iface string) *MapModel {
 	if obj := p.Xsync.Pkg.Scope().Lookup(mm.TableT); obj != nil {
 		if ts := structOf(obj.Type()); ts != nil {
 			for i := 0; i < ts.NumFields(); i++ {
-				if sl, ok := ts.Field(i).Type().(*types.Slice); ok {
+				if sl, ok := ts.Field(i).Type().Underlying().(*types.Slice); ok {
 					if n := namedOf(sl.Elem()); n != "" && structOf(sl.Elem()) != nil {
 						es := structOf(sl.Elem())
 						hasEmb := false
@@ -521,14 +523,51 @@ func (m *Model) buildMap(named *types.Named, iface string) *MapModel {
 	}
 	// Copy / Append: callees of Resize (transitively one level) by role
 	if mm.Resize != nil {
-		Instrs(mm.Resize, func(in ssa.Instruction) {
-			c, ok := in.(ssa.CallInstruction)
-			if !ok {
-				return
-			}
+		// callees of the resize function, and (one level down) of the helpers it delegates the copy loop to
+		var sites []ssa.CallInstruction
+		seenFn := map[*ssa.Function]bool{mm.Resize: true}
+		var collect func(f *ssa.Function, depth int)
+		collect = func(f *ssa.Function, depth int) {
+			Instrs(f, func(in ssa.Instruction) {
+				c, ok := in.(ssa.CallInstruction)
+				if !ok {
+					return
+				}
+				sites = append(sites, c)
+				cal := Callee(c)
+				if cal == nil || cal.Pkg != p.Xsync || cal.Blocks == nil || seenFn[cal] || depth >= 2 {
+					return
+				}
+				if cal == mm.NewTable || cal == mm.Wait || cal == mm.FlagCAS || m.Acquire[cal] || m.Release[cal] {
+					return
+				}
+				// follow only helpers that take the table (src / dest) - the copy loop moved out of resize
+				takesTable := false
+				for _, prm := range cal.Params {
+					if namedOf(prm.Type()) == mm.TableT {
+						takesTable = true
+					}
+				}
+				hasBucketParam := false
+				for _, prm := range cal.Params {
+					if contains(mm.BucketT, namedOf(prm.Type())) {
+						hasBucketParam = true
+					}
+				}
+				if takesTable && !hasBucketParam {
+					seenFn[cal] = true
+					mm.ResizeHelpers = append(mm.ResizeHelpers, cal)
+					collect(cal, depth+1)
+				}
+			})
+		}
+		collect(mm.Resize, 0)
+		for _, c := range sites {
+			in := c.(ssa.Instruction)
+			_ = in
 			cal := Callee(c)
 			if cal == nil || cal.Pkg != p.Xsync || cal == mm.NewTable || cal == mm.Wait {
-				return
+				continue
 			}
 			hasBucket, hasTable := false, false
 			for _, prm := range cal.Params {
@@ -540,10 +579,10 @@ func (m *Model) buildMap(named *types.Named, iface string) *MapModel {
 					hasTable = true
 				}
 			}
-			if (hasBucket && hasTable) || (mm.Copy == nil && m.acquiresBucketLock(cal)) {
+			if (hasBucket && hasTable) || (mm.Copy == nil && m.acquiresBucketLock(cal) && !seenFn[cal]) {
 				mm.Copy = cal
 			}
-		})
+		}
 	}
 	if mm.Copy != nil {
 		Instrs(mm.Copy, func(in ssa.Instruction) {
@@ -948,4 +987,49 @@ func elemOfPtr(t types.Type) types.Type {
 		return p.Elem()
 	}
 	return t
+}
+
+// counterType is the named type of the table's counter field (the slice field whose elements are not buckets), when
+// that field has a named type with methods of its own; "" otherwise.
+func (mm *MapModel) counterType(p *Prog) string {
+	obj := p.Xsync.Pkg.Scope().Lookup(mm.TableT)
+	if obj == nil {
+		return ""
+	}
+	ts := structOf(obj.Type())
+	if ts == nil {
+		return ""
+	}
+	for i := 0; i < ts.NumFields(); i++ {
+		n, ok := ts.Field(i).Type().(*types.Named)
+		if !ok {
+			continue
+		}
+		if sl, ok := n.Underlying().(*types.Slice); ok {
+			if es := structOf(sl.Elem()); es != nil {
+				emb := false
+				for j := 0; j < es.NumFields(); j++ {
+					if es.Field(j).Embedded() {
+						emb = true
+					}
+				}
+				if !emb {
+					return n.Obj().Name()
+				}
+			}
+		}
+	}
+	return ""
+}
+
+// CounterOwner maps the receiver argument of a counter helper to the table it counts for: the table itself, or the
+// table whose counter field was loaded to obtain the receiver.
+func CounterOwner(v ssa.Value) ssa.Value {
+	v = StripConv(v)
+	if ld, ok := v.(*ssa.UnOp); ok {
+		if fa, ok := ld.X.(*ssa.FieldAddr); ok {
+			return StripConv(fa.X)
+		}
+	}
+	return v
 }
